@@ -109,6 +109,8 @@ func c14Summarise(g string) string {
 type c14Acct struct {
 	floor  int           // module goroutines known to be stranded for good (reported already)
 	stable time.Duration // give up early when the count has not moved for this long
+	lateMu sync.Mutex
+	late   []func() // caller-context cancels that run only after the goroutine accounting
 }
 
 // Wait for the module goroutine count to return to the floor; report what is left otherwise. Gives
@@ -791,7 +793,7 @@ func (r *Run) c14MkNode(silent bool) *c14Node {
 // time-outs.
 func c14Delay(topo string) time.Duration {
 	switch topo {
-	case "answer":
+	case "answer", "holders":
 		return 250 * time.Millisecond
 	case "mixed":
 		return 20 * time.Millisecond
@@ -819,6 +821,20 @@ func (r *Run) c14World(topo string, item []byte) (*c14World, error) {
 		n := r.c14MkNode(true)
 		nw.nodes[n.addr.String()] = n
 		start = []dht.Addr{dht.NewAddr(n.addr)}
+	case "holders":
+		// several starting nodes all hold the item and know each other: their replies are in flight
+		// at the same time (Alpha > 1), so more than one value is waiting to be delivered at once
+		var hs []*c14Node
+		for i := 0; i < 3+r.rng.Intn(4); i++ {
+			h := r.c14MkNode(false)
+			h.values, h.item = true, item
+			hs = append(hs, h)
+		}
+		for _, h := range hs {
+			h.nodes = hs
+			nw.nodes[h.addr.String()] = h
+			start = append(start, dht.NewAddr(h.addr))
+		}
 	case "answer", "mixed":
 		a, b, c := r.c14MkNode(false), r.c14MkNode(false), r.c14MkNode(true)
 		a.nodes = []*c14Node{b}
@@ -892,6 +908,23 @@ func (r *Run) c14Traversal(acct *c14Acct, name string, reps int, leakMsg string,
 			msg = fmt.Sprintf("%s (%s: %d goroutines stranded after %d runs)", leakMsg, name, extra, reps)
 		}
 		r.violation(msg, map[string]interface{}{"scenario": name, "repeat": reps, "goroutines": c14Dedup(dump)})
+	}
+	acct.runLate()
+}
+
+func (a *c14Acct) addLate(f func()) {
+	a.lateMu.Lock()
+	a.late = append(a.late, f)
+	a.lateMu.Unlock()
+}
+
+func (a *c14Acct) runLate() {
+	a.lateMu.Lock()
+	l := a.late
+	a.late = nil
+	a.lateMu.Unlock()
+	for _, f := range l {
+		f()
 	}
 }
 
@@ -1172,7 +1205,13 @@ func (r *Run) c14Getput(acct *c14Acct, reps int, put bool, topo, fault, leakMsg 
 			return []string{"NewServer: " + err.Error()}, "setup"
 		}
 		ctx, cancel := context.WithCancel(context.Background())
-		defer cancel()
+		if fault == "" {
+			// the caller's context outlives the call (an application-lifetime context): nothing of the
+			// traversal may depend on it being cancelled afterwards. Released after the accounting.
+			acct.addLate(cancel)
+		} else {
+			defer cancel()
+		}
 		var once sync.Once
 		w.net.onQuery = func(q string, n int) {
 			if n == 1 {
@@ -1207,7 +1246,7 @@ func (r *Run) c14Getput(acct *c14Acct, reps int, put bool, topo, fault, leakMsg 
 		if !put && gerr == nil && !bytes.Equal(res.V, item) {
 			problems = append(problems, name+": Get returned a value that was never served")
 		}
-		if !put && topo == "answer" && fault == "" && it != nil && gerr != nil {
+		if !put && (topo == "answer" || topo == "holders") && fault == "" && it != nil && gerr != nil {
 			problems = append(problems, name+": Get failed although a node served the value: "+gerr.Error())
 		}
 		if put && topo == "answer" && fault == "" && gerr == nil {
@@ -1226,7 +1265,7 @@ func (r *Run) c14Getput(acct *c14Acct, reps int, put bool, topo, fault, leakMsg 
 // ---------------------------------------------------------------------------------------------
 
 func runC14(r *Run) {
-	r.Result.Rule = "query fault placements enumerated (NumTries 0..4 x resend delay {0, small} x {silent, pre-cancelled, closed server, late reply, and per send k: reply/cancel/Close during, at and after the write, write failure, duplicate reply, reply racing a failed write, cancel racing a reply, Close racing a reply, faults on consecutive sends}) plus PRNG-drawn multi-fault schedules; each placement repeated (20x) on fresh servers with goroutine accounting; every distinct observed history validated by the Lean query machine with model-independent negative controls; traversal owners (Bootstrap, Announce, getput.Get/Put) x {resolver error, no nodes, silent node, answering nodes} x {run, ctx cancel, Server.Close, Announce.Close/StopTraversing at three points} x {consumer reads, does not read}; non-trivial = distinct (scenario, observed history, outcome)"
+	r.Result.Rule = "query fault placements enumerated (NumTries 0..4 x resend delay {0, small} x {silent, pre-cancelled, closed server, late reply, and per send k: reply/cancel/Close during, at and after the write, write failure, duplicate reply, reply racing a failed write, cancel racing a reply, Close racing a reply, faults on consecutive sends}) plus PRNG-drawn multi-fault schedules; each placement repeated (20x) on fresh servers with goroutine accounting; every distinct observed history validated by the Lean query machine with model-independent negative controls; traversal owners (Bootstrap, Announce, getput.Get/Put) x {resolver error, no nodes, silent node, answering nodes, several simultaneous holders of the item} x {run, ctx cancel, Server.Close, Announce.Close/StopTraversing at three points} x {consumer reads, does not read}; non-trivial = distinct (scenario, observed history, outcome)"
 	t0 := time.Now()
 	acct := &c14Acct{stable: time.Duration(r.n(500, 1500)) * time.Millisecond}
 	if extra, dump := acct.settle(); extra > 0 {
@@ -1265,9 +1304,9 @@ func runC14(r *Run) {
 	// ---- traversals ----
 	r.c14Bootstrap(acct, reps)
 	for _, put := range []bool{false, true} {
-		for _, topo := range []string{"silent", "answer", "mixed"} {
+		for _, topo := range []string{"silent", "answer", "mixed", "holders"} {
 			for _, fault := range []string{"", "cancel", "close"} {
-				if topo == "mixed" && fault != "" {
+				if (topo == "mixed" || topo == "holders") && fault != "" {
 					continue
 				}
 				r.c14Getput(acct, reps, put, topo, fault, "")
